@@ -1,7 +1,7 @@
 package sam
 
 import (
-	"encoding/csv"
+	"bufio"
 	"io"
 	"iter"
 	"strings"
@@ -12,21 +12,23 @@ import (
 // ReaderHeader iterates over SAM or header entries in a reader.
 func ReaderHeader(r io.Reader) iter.Seq2[SAMOrHeader, error] {
 	return func(yield func(SAMOrHeader, error) bool) {
-		csvReader := csv.NewReader(r)
-		csvReader.Comma = '\t'
-		csvReader.FieldsPerRecord = -1 // Allow variable number of fields.
-		csvReader.LazyQuotes = true
-		for {
-			line, err := csvReader.Read()
-			if err == io.EOF {
-				break
-			}
+		// Lines are split on tabs only. SAM has no quoting, so a CSV parser
+		// would mangle fields that contain double quotes.
+		lineReader := bufio.NewReader(r)
+		for eof := false; !eof; {
+			text, err := lineReader.ReadString('\n')
+			eof = err == io.EOF
 			// Error case. A failed read may come with a partial line,
 			// which must not be parsed.
-			if err != nil {
+			if err != nil && !eof {
 				yield(SAMOrHeader{}, err)
 				break
 			}
+			text = strings.TrimSuffix(strings.TrimSuffix(text, "\n"), "\r")
+			if text == "" {
+				continue // Skip empty lines.
+			}
+			line := strings.Split(text, "\t")
 			// Header line case.
 			if len(line) > 0 && strings.HasPrefix(line[0], "@") {
 				h := strings.Join(line, "\t")
